@@ -7,6 +7,7 @@ result).  Totality and injectivity are then lemmas over those postconditions: on
 known-but-unsupported versions are reported, as the property prescribes, and do not fail the check.
 """
 import itertools
+import os
 import time
 
 import z3
@@ -153,7 +154,17 @@ class IdTable(Unit):
             bad = [w for w in witnesses if w in supset]
             rep = [w for w in witnesses if w not in supset]
             for w in rep:
-                self.reported.append('%s/%s@%d' % (A.__name__, B.__name__, protocol_of_index(w)))
+                key = '%s/%s@%d' % (A.__name__, B.__name__, protocol_of_index(w))
+                self.reported.append(key)
+                if key not in self.baseline():
+                    # a collision on a known version that is not supported BY DEFAULT, and that the tree did not have when the
+                    # baseline was taken: the set of supported versions is extensible at run time (the documented way to use a
+                    # snapshot), and from that moment this is a collision on a supported version (seeded change C06-r11).  The
+                    # collisions already present on such versions stay "reported only", as the property prescribes.
+                    self._record(E, 'id.injective-once-supported[%s/%s]' % (A.__name__, B.__name__), FAILED,
+                                 model={'i': w, 'A': A.__name__, 'B': B.__name__, 'kind': 'collision'},
+                                 note='NEW collision at known-but-unsupported protocol %d (not among the %d reported ones of the '
+                                      'baseline)' % (protocol_of_index(w), len(self.baseline())))
             if not bad:
                 self._record(E, label, DISCHARGED,
                              note='' if not rep else '%d collisions on unsupported known versions (reported only)' % len(rep))
@@ -167,6 +178,15 @@ class IdTable(Unit):
         E.queries += stats['queries']
         E.solver_time += stats['solver']
         E.notes.append('summaries: %d paths over the symbolic version index' % stats['paths'])
+        if os.environ.get('VERIF_C06_WRITE_BASELINE'):
+            import json
+            path = os.path.join(os.path.dirname(os.path.abspath(__file__)), 'c06_unsupported_baseline.json')
+            try:
+                cur = json.load(open(path))
+            except (IOError, ValueError):
+                cur = {}
+            cur[self.name.replace('C06.', '')] = sorted(self.reported)
+            json.dump(cur, open(path, 'w'), indent=1, sort_keys=True)
         if self.reported:
             E.notes.append('reported (not failing): %d id collisions on known-but-unsupported versions in %s: %s'
                            % (len(self.reported), self.name, ', '.join(sorted(self.reported)[:12]) + ' ...'))
@@ -177,6 +197,16 @@ class IdTable(Unit):
         for fn, sha in stats['hashes'].items():
             I.index.files.setdefault(fn, (None, sha, None))
         return None
+
+    def baseline(self):
+        if not hasattr(self, '_baseline'):
+            import json
+            path = os.path.join(os.path.dirname(os.path.abspath(__file__)), 'c06_unsupported_baseline.json')
+            try:
+                self._baseline = set(json.load(open(path)).get(self.name.split('.dep.')[-1].replace('C06.', ''), []))
+            except (IOError, ValueError):
+                self._baseline = set()
+        return self._baseline
 
     def _record(self, E, label, status, model=None, note=''):
         E.obligations.append(Obligation(E.unit, label, 0, status, 'z3-%s' % z3.get_version_string(), 0.0,
